@@ -100,6 +100,19 @@ func runMC(r *ev.Run, o tlc.Options) *tlc.Result {
 	return res
 }
 
+// childModes are auxiliary child-process entry points (VERIF_CHILD=<mode>) of drivers which must run
+// part of their workload in a process of its own (fatal errors of the Go runtime cannot be recovered).
+var childModes = map[string]func(args []string){}
+
+// ChildMain dispatches an auxiliary child mode; false if mode is not one.
+func ChildMain(mode string, args []string) bool {
+	if f, ok := childModes[mode]; ok {
+		f(args)
+		return true
+	}
+	return false
+}
+
 // MCJob is one TLC run over generated files.
 type MCJob struct {
 	Name  string
